@@ -589,6 +589,21 @@ class CallSites:
             if truth:
                 return {pt for pt, r in tab.items() if UNKNOWN in r or c in r}
             return {pt for pt, r in tab.items() if UNKNOWN in r or (r - {c})}
+        if t[0] == "icmp" and t[1] in ("ult", "ule", "ugt", "uge", "ne") and len(t) == 4:
+            # range tests of a field / predicate value against a constant (e.g. a bounds check before a dispatch table)
+            for a_, b_, flip in ((t[2], t[3], False), (t[3], t[2], True)):
+                if isinstance(b_, tuple) and b_[0] == "c":
+                    tab = subject(a_)
+                    if tab is None:
+                        continue
+                    c = b_[1]
+                    pred = t[1]
+                    if flip:
+                        pred = {"ult": "ugt", "ule": "uge", "ugt": "ult", "uge": "ule", "ne": "ne"}[pred]
+                    test = {"ult": lambda v: v < c, "ule": lambda v: v <= c, "ugt": lambda v: v > c, "uge": lambda v: v >= c,
+                            "ne": lambda v: v != c}[pred]
+                    return {pt for pt, r in tab.items() if UNKNOWN in r or any(test(v) == bool(truth) for v in r if v != UNKNOWN)}
+            return full
         tab = subject(t)
         if tab is None:
             return full
